@@ -172,7 +172,7 @@ func checkBigCut(ctx *pbt.Ctx, c BigCut) error {
 	if c.Flip >= 0 {
 		ctx.Label("bit-flipped")
 	}
-	if !isJSON(c.Entry) {
+	if !isJSON(c.Entry) && len(data) <= 4096 { // the walker is slow on big inputs; the cut itself already decides non-triviality
 		over, short, complete := classify(c.Entry, data)
 		switch {
 		case over:
